@@ -177,6 +177,41 @@ func (e *Engine) callFunc(fr *frame, ins ssa.Instruction, fn *ssa.Function, args
 		}
 	case "vcIter":
 		return e.iterValue(fr, ins), reach
+	case "vcSame":
+		if a, ok := args[0].(IfaceVal); ok {
+			b := args[1].(IfaceVal)
+			return Sc{and(eq(a.Tag, b.Tag), eq(a.Ref, b.Ref)), SBool}, reach
+		}
+		if a, ok := args[0].(SliceVal); ok {
+			b := args[1].(SliceVal)
+			return Sc{and(eq(a.Arr, b.Arr), eq(a.Off, b.Off), eq(a.Len, b.Len)), SBool}, reach
+		}
+		return Sc{eq(e.scalar(args[0]).T, e.scalar(args[1]).T), SBool}, reach
+	case "vcWriteCount":
+		t := bvLit(0, 64)
+		for _, w := range e.ghostWrites {
+			t = app("bvadd", t, ite(w.cond, bvLit(1, 64), bvLit(0, 64)))
+		}
+		return Sc{e.sc.define("wcount", SI64, t), SI64}, reach
+	case "vcWritten":
+		if len(e.ghostWrites) == 0 {
+			return e.zeroVal(types.NewSlice(types.Typ[types.Uint8])), reach
+		}
+		var v Val = e.ghostWrites[len(e.ghostWrites)-1].data
+		for i := len(e.ghostWrites) - 2; i >= 0; i-- {
+			v = e.iteVal(e.ghostWrites[i].cond, e.ghostWrites[i].data, v)
+		}
+		return v, reach
+	case "vcExitCode":
+		return Sc{e.curExitCode, SI64}, reach
+	case "vcPrinted":
+		t := "false"
+		for _, ev := range e.ghostEvents {
+			if ev[0] == "print" {
+				t = or(t, ev[1])
+			}
+		}
+		return Sc{e.sc.define("printed", SBool, t), SBool}, reach
 	case "implies":
 		if fn.Pkg != nil && strings.HasPrefix(fn.Pkg.Pkg.Path(), repoModule) {
 			return Sc{implies(e.scalar(args[0]).T, e.scalar(args[1]).T), SBool}, reach
@@ -191,6 +226,31 @@ func (e *Engine) callFunc(fr *frame, ins ssa.Instruction, fn *ssa.Function, args
 			return Sc{bvLit(0, 64), SI64}, reach
 		}
 		return nil, reach
+	}
+	// call-site clauses of the function under verification
+	if e.rootC != nil && !e.pure && len(e.stack) >= 1 && e.stack[0] == e.root {
+		for _, cl := range e.rootC.byKind("calls") {
+			if !calleeMatches(name, cl.Callee) {
+				continue
+			}
+			pf := e.w.Preds[e.rootC.Pkg+"."+cl.Pred]
+			if pf == nil || len(pf.Params) != len(e.rootArgs)+len(args) {
+				continue
+			}
+			t := e.evalPred(pf, append(append([]Val{}, e.rootArgs...), args...), heap, nil)
+			e.oblige(&Obligation{
+				Name:   fmt.Sprintf("%s.calls.%s", e.rootName(), cl.Label),
+				Kind:   "ensures",
+				Clause: cl.Expr,
+				Goal:   implies(reach, t),
+				Pos:    e.posOf(ins.Pos()),
+				Func:   e.rootName(),
+			})
+			e.callsSeen[cl.Label]++
+		}
+	}
+	if v, r, ok := e.libModel(fr, ins, name, fn, args, resT, reach, heap); ok {
+		return v, r
 	}
 	if v, r, ok := e.loModel(fr, ins, name, fn, args, resT, reach, heap); ok {
 		return v, r
@@ -210,6 +270,24 @@ func (e *Engine) callFunc(fr *frame, ins ssa.Instruction, fn *ssa.Function, args
 	if len(fn.Blocks) == 0 || !e.inlinable(fn) {
 		e.abstracted[name]++
 		return e.havocResult(resT, "ext_"+fn.Name()), reach
+	}
+	if why := e.cannotInline(fn); why != "" {
+		// a repository function without contract that cannot be inlined (loops without
+		// invariants, recursion): its result is unconstrained and every heap component it
+		// may write in pre-existing objects (syntactic analysis of its body and callees) is
+		// havocked. Its panic sites are not analysed here.
+		e.abstracted[name+" (inferred frame: "+why+")"]++
+		keys := e.writeSetOfFunc(fn)
+		for _, k := range append([]string{}, e.compOrder...) {
+			if e.inModSet(keys, k) {
+				cp := e.comps[k]
+				fresh := e.sc.declare("Habs_"+k, cp.sort)
+				heap[k] = e.sc.define("Ha_"+k, cp.sort, ite(e.guard, fresh, e.heapGet(heap, cp)))
+				e.dirty[k] = true
+			}
+		}
+		e.pendingWrites = append(e.pendingWrites, keys)
+		return e.havocResult(resT, "abs_"+fn.Name()), reach
 	}
 	e.inlined[name]++
 	// memoise pure spec functions on identical arguments and heap
@@ -653,20 +731,20 @@ func (e *Engine) builtin(fr *frame, ins ssa.Instruction, b *ssa.Builtin, cc *ssa
 func (e *Engine) appendOp(fr *frame, cc *ssa.CallCommon, args []Val, heap Heap) Val {
 	st := under(cc.Args[0].Type()).(*types.Slice)
 	s := args[0].(SliceVal)
-	var t SliceVal
-	var tIsString bool
-	var tStr string
 	switch x := args[1].(type) {
 	case SliceVal:
-		t = x
+		return e.appendRaw(s, x, st.Elem(), heap, false, "")
 	case Sc:
 		// append([]byte, string...)
-		tIsString = true
-		tStr = x.T
-		t = SliceVal{Len: app("gs_len", x.T)}
-	default:
-		fail("append of %T", args[1])
+		return e.appendRaw(s, SliceVal{Len: app("gs_len", x.T)}, st.Elem(), heap, true, x.T)
 	}
+	fail("append of %T", args[1])
+	return nil
+}
+
+// appendRaw is append(s, t...) for element type et (t may be a string's bytes).
+func (e *Engine) appendRaw(s, t SliceVal, et types.Type, heap Heap, tIsString bool, tStr string) SliceVal {
+	st := types.NewSlice(et)
 	ref := e.alloc()
 	newLen := e.sc.define("alen", SI64, e.sc.addS(s.Len, t.Len))
 	e.forLeaves(types.NewSlice(st.Elem()), []pathElem{{field: -1}}, st.Elem(), func(path []pathElem, suffix, leaf string, lt types.Type) {
@@ -842,4 +920,126 @@ func isAssumedLabel(l string) bool {
 		}
 	}
 	return true
+}
+
+// cannotInline explains why fn cannot be inlined ("" if it can).
+func (e *Engine) cannotInline(fn *ssa.Function) string {
+	if r, ok := e.inlineMemo[fn]; ok {
+		return r
+	}
+	e.inlineMemo[fn] = "" // cycle guard
+	r := e.cannotInline1(fn, map[*ssa.Function]bool{})
+	e.inlineMemo[fn] = r
+	return r
+}
+
+func (e *Engine) cannotInline1(fn *ssa.Function, path map[*ssa.Function]bool) string {
+	if path[fn] {
+		return "recursion through " + fn.Name()
+	}
+	for _, s := range e.stack {
+		if s == fn {
+			return "recursion through " + fn.Name()
+		}
+	}
+	path[fn] = true
+	defer delete(path, fn)
+	// loops without ghost invariants
+	st := map[*ssa.BasicBlock]int{}
+	loop := false
+	var dfs func(b *ssa.BasicBlock)
+	dfs = func(b *ssa.BasicBlock) {
+		st[b] = 1
+		for _, s := range b.Succs {
+			if st[s] == 0 {
+				dfs(s)
+			} else if st[s] == 1 {
+				loop = true
+			}
+		}
+		st[b] = 2
+	}
+	if len(fn.Blocks) > 0 {
+		dfs(fn.Blocks[0])
+	}
+	if loop {
+		hasInv := false
+		for _, b := range fn.Blocks {
+			for _, ins := range b.Instrs {
+				if c, ok := ins.(*ssa.Call); ok {
+					if _, g := isGhostInv(c); g {
+						hasInv = true
+					}
+				}
+			}
+		}
+		if !hasInv {
+			return "loop without invariant in " + fn.Name()
+		}
+	}
+	for _, b := range fn.Blocks {
+		for _, ins := range b.Instrs {
+			ci, ok := ins.(ssa.CallInstruction)
+			if !ok {
+				continue
+			}
+			f := ci.Common().StaticCallee()
+			if f == nil {
+				if mc, ok := ci.Common().Value.(*ssa.MakeClosure); ok {
+					f = mc.Fn.(*ssa.Function)
+				}
+			}
+			if f == nil || len(f.Blocks) == 0 || !e.inlinable(f) {
+				continue
+			}
+			if c := e.w.contractFor(f); c != nil && len(c.byKind("ensures")) > 0 {
+				continue
+			}
+			name := fullName(f)
+			if strings.HasPrefix(name, "github.com/samber/lo.") {
+				switch name {
+				case "github.com/samber/lo.Map", "github.com/samber/lo.Find", "github.com/samber/lo.Contains":
+					continue
+				}
+			}
+			if r, ok := e.inlineMemo[f]; ok {
+				if r != "" {
+					return r
+				}
+				continue
+			}
+			if r := e.cannotInline1(f, path); r != "" {
+				return r
+			}
+		}
+	}
+	return ""
+}
+
+// calleeMatches compares an SSA full name such as "(*text/template.Template).Execute"
+// with a clause name such as "(*template.Template).Execute" (package name or path).
+func calleeMatches(full, pat string) bool {
+	if full == pat {
+		return true
+	}
+	norm := func(x string) string {
+		// drop directory part of the package path
+		star := ""
+		rest := x
+		pre := ""
+		if strings.HasPrefix(x, "(") {
+			pre = "("
+			rest = x[1:]
+			if strings.HasPrefix(rest, "*") {
+				star = "*"
+				rest = rest[1:]
+			}
+		}
+		if i := strings.LastIndex(rest, "/"); i >= 0 {
+			// only strip if the slash is inside the package path (before the first '.' after it)
+			rest = rest[i+1:]
+		}
+		return pre + star + rest
+	}
+	return norm(full) == norm(pat)
 }
